@@ -22,10 +22,12 @@ fn c15_abs() {
     let w = [word(8), word(12), word(16), word(20), word(24)];
     let regs: [u64; 32] = kani::any();
     let run = a64_run(&w, 5, 0x1000, &regs);
-    assert!(run.end == A64End::Jump(target as u64), "OBL:C15.abs.lands: the trampoline builds exactly the 64-bit address of the fake and branches to it");
-    assert!(run.written == 1 << 9, "OBL:C15.abs.regs: the only register written is the caller-saved temporary x9");
-    assert!(run.written & 0x7FF8_01FF == 0, "OBL:C13.a64.tramp.effect: no argument (x0-x7), indirect-result (x8), callee-saved (x19-x29) or link register is written");
-    assert!(unsafe { os::N_FLUSH == 1 && os::FLUSH_START[0] == os::mem_base() + 8 && os::FLUSH_END[0] == os::mem_base() + 28 }, "OBL:C17.a64.tramp.flush: the 20 trampoline bytes are flushed after being written");
+    crate::obligations! {
+        (run.end == A64End::Jump(target as u64)) => "OBL:C15.abs.lands: the trampoline builds exactly the 64-bit address of the fake and branches to it",
+        (run.written == 1 << 9) => "OBL:C15.abs.regs: the only register written is the caller-saved temporary x9",
+        (run.written & 0x7FF8_01FF == 0) => "OBL:C13.a64.tramp.effect: no argument (x0-x7), indirect-result (x8), callee-saved (x19-x29) or link register is written",
+        (unsafe { os::N_FLUSH == 1 && os::FLUSH_START[0] == os::mem_base() + 8 && os::FLUSH_END[0] == os::mem_base() + 28 }) => "OBL:C17.a64.tramp.flush: the 20 trampoline bytes are flushed after being written",
+    }
     kani::cover!(true, "COVER:end");
 }
 
@@ -92,19 +94,21 @@ fn c11_a64_range() {
     let w = [word(16), word(20), word(24)];
     let regs: [u64; 32] = kani::any();
     let run = a64_run(&w, 3, (base + 16) as u64, &regs);
-    assert!(run.end == A64End::Jump(jit as u64) && run.written == 0, "OBL:C15.entry.linux.lands: the entry is an unconditional branch whose destination is exactly the trampoline");
-    assert!(w[1] == 0xD503_201F && w[2] == 0xD503_201F, "OBL:C15.entry.linux.nops: the rest of the 12-byte patch is NOPs");
-    assert!(run.written == 0, "OBL:C13.a64.entry.effect: the entry branch writes no register at all");
     let fi: usize = kani::any();
     kani::assume(fi >= 16 && fi < 28);
-    assert!(flushed_with_final_content(fi), "OBL:C17.a64.entry.flush: the 12 entry bytes are covered by a flush issued after they were written");
     let oi: usize = kani::any();
     kani::assume(oi < os::ARENA && !(oi >= 16 && oi < 28));
-    assert!(unsafe { os::MEM[oi] == SNAPSHOT[oi] }, "OBL:C03.frame.a64: only the 12 entry bytes change");
-    assert!(g_size(&g) == 12 && g_func(&g) == base + 16 && g_jit(&g) == jit && g_jit_size(&g) == 20, "OBL:C12.own.a64: the guard owns exactly the trampoline it was given");
     let j: usize = kani::any();
     kani::assume(j < 12);
-    assert!(g_orig(&g)[j] == orig[j], "OBL:C02.save.a64: the guard keeps the original 12 bytes it was handed");
+    crate::obligations! {
+        (run.end == A64End::Jump(jit as u64) && run.written == 0) => "OBL:C15.entry.linux.lands: the entry is an unconditional branch whose destination is exactly the trampoline",
+        (w[1] == 0xD503_201F && w[2] == 0xD503_201F) => "OBL:C15.entry.linux.nops: the rest of the 12-byte patch is NOPs",
+        (run.written == 0) => "OBL:C13.a64.entry.effect: the entry branch writes no register at all",
+        (flushed_with_final_content(fi)) => "OBL:C17.a64.entry.flush: the 12 entry bytes are covered by a flush issued after they were written",
+        (unsafe { os::MEM[oi] == SNAPSHOT[oi] }) => "OBL:C03.frame.a64: only the 12 entry bytes change",
+        (g_size(&g) == 12 && g_func(&g) == base + 16 && g_jit(&g) == jit && g_jit_size(&g) == 20) => "OBL:C12.own.a64: the guard owns exactly the trampoline it was given",
+        (g_orig(&g).len() == 12 && g_orig(&g)[j] == orig[j]) => "OBL:C02.save.a64: the guard keeps the original 12 bytes it was handed",
+    }
     std::mem::forget(g);
     kani::cover!(d == A64_REACH_LO, "COVER:lowest");
     kani::cover!(d == A64_REACH_HI - 3, "COVER:highest");
@@ -162,12 +166,14 @@ fn c15_entry_macos() {
     let w = [word(16), word(20), word(24)];
     let regs: [u64; 32] = kani::any();
     let run = a64_run(&w, 3, (base + 16) as u64, &regs);
-    assert!(run.end == A64End::Jump(jit as u64), "OBL:C15.entry.macos.lands: the macOS entry (direct B or ADRP/ADD/BR) transfers control to exactly the trampoline");
-    assert!(run.written & !(1 << 16) == 0, "OBL:C15.entry.macos.regs: at most x16 is written");
-    assert!(g_size(&g) == 12 && g_func(&g) == base + 16 && g_jit(&g) == jit, "OBL:C12.own.a64.macos: the guard owns exactly the trampoline it was given");
     let oi: usize = kani::any();
     kani::assume(oi < os::ARENA && !(oi >= 16 && oi < 28));
-    assert!(unsafe { os::MEM[oi] == SNAPSHOT[oi] }, "OBL:C03.frame.a64.macos: only the 12 entry bytes change");
+    crate::obligations! {
+        (run.end == A64End::Jump(jit as u64)) => "OBL:C15.entry.macos.lands: the macOS entry (direct B or ADRP/ADD/BR) transfers control to exactly the trampoline",
+        (run.written & !(1 << 16) == 0) => "OBL:C15.entry.macos.regs: at most x16 is written",
+        (g_size(&g) == 12 && g_func(&g) == base + 16 && g_jit(&g) == jit) => "OBL:C12.own.a64.macos: the guard owns exactly the trampoline it was given",
+        (unsafe { os::MEM[oi] == SNAPSHOT[oi] }) => "OBL:C03.frame.a64.macos: only the 12 entry bytes change",
+    }
     std::mem::forget(g);
     kani::cover!(d > (1 << 27), "COVER:long-form");
     kani::cover!(d < (1 << 27) && d >= -(1 << 27), "COVER:short-form");
